@@ -488,6 +488,7 @@ func (p *pipe) _background() {
 			p.queue.FinishResult()
 		} else {
 			p.queue.FinishResult()
+			verifYield(nil, "pipe.cleanup.spin", p, Completed{})
 			runtime.Gosched()
 		}
 	}
@@ -1075,6 +1076,7 @@ func (p *pipe) AZ() string {
 }
 
 func (p *pipe) Do(ctx context.Context, cmd Completed) (resp RedisResult) {
+	verifYield(ctx, "pipe.Do", p, cmd)
 	if err := ctx.Err(); err != nil {
 		return NewErrorResult(err)
 	}
@@ -1151,6 +1153,7 @@ abort:
 }
 
 func (p *pipe) DoMulti(ctx context.Context, multi ...Completed) *redisresults {
+	verifYield(ctx, "pipe.DoMulti", p, verifFirst(multi))
 	resp := resultsp.Get(len(multi), len(multi))
 	if err := ctx.Err(); err != nil {
 		for i := 0; i < len(resp.s); i++ {
@@ -1536,6 +1539,7 @@ func (p *pipe) optInCmd() cmds.Completed {
 }
 
 func (p *pipe) DoCache(ctx context.Context, cmd Cacheable, ttl time.Duration) RedisResult {
+	verifYield(ctx, "pipe.DoCache", p, Completed(cmd))
 	if p.cache == nil {
 		return p.Do(ctx, Completed(cmd))
 	}
@@ -1696,6 +1700,7 @@ func (p *pipe) doCacheMGet(ctx context.Context, cmd Cacheable, ttl time.Duration
 }
 
 func (p *pipe) DoMultiCache(ctx context.Context, multi ...CacheableTTL) *redisresults {
+	verifYield(ctx, "pipe.DoMultiCache", p, verifFirstCacheable(multi))
 	if p.cache == nil {
 		commands := make([]Completed, len(multi))
 		for i, ct := range multi {
